@@ -1,0 +1,30 @@
+//! Verification hook, compiled only with `--cfg paseto_verif` (never in normal builds).
+//!
+//! The AES-CTR counter block of local tokens (v3), PIE wraps and key seals comes out of a KDF,
+//! so a caller cannot choose it; a counter block whose low 64 bits wrap inside the message is
+//! therefore unreachable from outside (~2^48 KDF evaluations). This hook lets a test harness
+//! force the block on the current thread so that the full-width counter behaviour can be
+//! compared with a reference implementation.
+extern crate std;
+
+use core::cell::Cell;
+
+use generic_array::GenericArray;
+use generic_array::typenum::U16;
+
+std::thread_local! {
+    static FORCED: Cell<Option<[u8; 16]>> = const { Cell::new(None) };
+}
+
+/// Force (or stop forcing) the derived AES-CTR counter block on this thread.
+pub fn force_ctr_block(block: Option<[u8; 16]>) {
+    FORCED.with(|f| f.set(block));
+}
+
+#[allow(dead_code)]
+pub(crate) fn ctr_block(derived: GenericArray<u8, U16>) -> GenericArray<u8, U16> {
+    match FORCED.with(|f| f.get()) {
+        Some(b) => b.into(),
+        None => derived,
+    }
+}
